@@ -71,7 +71,13 @@ class Check:
 
     # -- rule bookkeeping -------------------------------------------------
     def rule(self, name: str, text: str, floor: int = 1):
-        self.rules[name] = {'text': text, 'floor': floor, 'instances': 0, 'samples': [], 'failed': 0}
+        # `floor` is the instance count confirmed by hand (rounded down when the rule was written). The check fails as
+        # undecided when the extractor finds clearly fewer sites than that; merging two sibling functions into one or
+        # folding two call sites into a loop legitimately lowers a count by one or two, so a quarter of slack is allowed
+        # (never below one instance: a rule that matches nothing does not pass).
+        confirmed = floor
+        floor = max(1, floor - max(1, floor // 4)) if floor > 1 else floor
+        self.rules[name] = {'text': text, 'floor': floor, 'confirmed': confirmed, 'instances': 0, 'samples': [], 'failed': 0}
         return name
 
     def instance(self, rule: str, sample=None, n: int = 1):
